@@ -5,7 +5,7 @@ import h2.events
 import h2.exceptions
 from h2.settings import SettingCodes
 
-from engine.core import (check, note, sym_int, sym_choice, assume_z, s_le, s_lt, s_and, s_not,
+from engine.core import (check, note, sym_int, sym_bool, sym_choice, assume_z, s_le, s_lt, s_and, s_not,
                          INT32, CTX)
 from engine import h2h, ops, models
 from engine.observer import OPEN, HCR, HCL, CLOSED, IDLE, RES_REMOTE, RES_LOCAL
@@ -146,8 +146,21 @@ def h_inbound_limit(shapes, pending):
             nxt = _client_streams(ctx, shapes)
             _, k = rfc_counts(ctx.obs)
         L = sym_int('limit', 0, INT32, default=1)
-        h2h.Adapter.set_local_setting(ctx.me, SettingCodes.MAX_CONCURRENT_STREAMS, L)
-        if pending:
+        if pending == 'toggled':
+            # two changes in flight at once (to L2 and back to L), both acknowledged: the
+            # acknowledged limit is L
+            h2h.Adapter.set_local_setting(ctx.me, SettingCodes.MAX_CONCURRENT_STREAMS, L)
+            L2 = sym_int('pending_limit', 0, INT32, default=0)
+            ctx.me.update_settings({SettingCodes.MAX_CONCURRENT_STREAMS: L2})
+            ctx.me.update_settings({SettingCodes.MAX_CONCURRENT_STREAMS: L})
+            for _ in range(2):
+                a = hf.SettingsFrame(0)
+                a.flags.add('ACK')
+                h2h.deliver(ctx.me, [a])
+            ctx.me.data_to_send()
+        else:
+            h2h.Adapter.set_local_setting(ctx.me, SettingCodes.MAX_CONCURRENT_STREAMS, L)
+        if pending is True:
             L2 = sym_int('pending_limit', 0, INT32, default=0)
             ctx.me.update_settings({SettingCodes.MAX_CONCURRENT_STREAMS: L2})
             ctx.me.data_to_send()
@@ -177,11 +190,24 @@ def h_push_limit(npush, answered):
             k, _ = rfc_counts(ctx.obs)
         check(ctx.me.open_outbound_streams == answered, 'reserved-streams-counted',
               ctx.me.open_outbound_streams)
+        push_off = sym_bool('peer_disables_push_now')
+        if push_off:
+            # the streams already pushed stay what they are
+            f = hf.SettingsFrame(0)
+            f.settings = {SettingCodes.ENABLE_PUSH: 0}
+            h2h.deliver(ctx.me, [f])
+            ctx.me.data_to_send()
+            check(ctx.me.open_outbound_streams == answered,
+                  'open_outbound_streams-differs:after-ENABLE_PUSH=0',
+                  (ctx.me.open_outbound_streams, answered))
         L = sym_int('limit', 0, INT32, default=1)
         h2h.Adapter.set_remote_setting(ctx.me, SettingCodes.MAX_CONCURRENT_STREAMS, L)
         # pushing itself is always allowed (reserved streams are not counted) ...
         o = ops.run_op(ctx, ('push', 1, 2 + 2 * npush), symbolic=True)
-        check(o.cls == ('ok',), 'push-refused-by-concurrency-limit', o.cls)
+        if push_off:
+            check(o.cls[0] == 'refused', 'push-with-push-disabled', o.cls)
+        else:
+            check(o.cls == ('ok',), 'push-refused-by-concurrency-limit', o.cls)
         # ... but the send that opens a reserved stream must respect the limit
         if answered < npush:
             sid = 2 + 2 * answered
@@ -238,8 +264,11 @@ def shards(tier, seed):
         name = '+'.join(sh) or 'none'
         out.append(Shard('outbound_limit/%s' % name, h_outbound_limit(sh),
                          expect=['refused', 'opened']))
-        for pending in (False, True):
-            out.append(Shard('inbound_limit/%s%s' % (name, '/pending' if pending else ''),
+        for pending in (False, True, 'toggled'):
+            if pending == 'toggled' and len(sh) != 1:
+                continue
+            out.append(Shard('inbound_limit/%s%s' % (name, '/toggled' if pending == 'toggled'
+                                                      else '/pending' if pending else ''),
                              h_inbound_limit(sh, pending), expect=['rejected', 'accepted']))
     out.append(Shard('outbound_unlimited', h_outbound_unlimited(), expect=['opened']))
     for npush, answered in ((1, 0), (3, 0), (3, 1), (3, 2)):
